@@ -17,7 +17,8 @@ TraceInit == PInit /\ l = 1 /\ stalled = {} /\ held = {} /\ obs = [none |-> TRUE
 
 IsEvent(e) == l <= TLen /\ Trace[l].ev = e /\ l' = l + 1
 Row == Trace[l]
-TakeObs == obs' = Row.obs /\ hasObs' = TRUE
+TakeObs == IF "obs" \in DOMAIN Row THEN obs' = Row.obs /\ hasObs' = TRUE
+           ELSE obs' = obs /\ hasObs' = FALSE     \* free-running mode: only the final state is observed
 
 TReset == /\ IsEvent("Reset")
           /\ up' = [p \in Peers |-> FALSE]
